@@ -45,6 +45,8 @@ def families(tier, seed):
                         out.append(dict(
                             name=f'graph_to_logic {sh.name} self_loops={self_loops} ignore_initial={ign} receptive={rec}',
                             run=run, label='per-shape'))
+    from contracts import optdiff as _od
+    out.append(dict(name='same results with assert statements stripped (python -O), section C20', run=_od.family('C20'), label='bounded'))
     return out
 
 
